@@ -47,6 +47,21 @@ def cem_models(ex, L):
                              patterns=[z3.Select(L.val.a, j), z3.Select(L.nan.a, j), w(j)]))
         return pi
 
+    def argmin(ex_, x, axis=None):
+        """index of the first minimal entry; NaN propagates: on an array that contains NaN, numpy/jax argmin returns the first NaN index"""
+        ex_.assumptions_used.add("jnp.argmin(x): first index of a minimal entry; if x contains NaN the first NaN index (IEEE NaN propagation)")
+        n = x.n
+        r = ex_.fresh("argmin", INT)
+        i = z3.Int("i!am")
+        ex_.assume(z3.And(0 <= r, r < n))
+        if x.a.eq(L.val.a):
+            anynan = z3.Exists([i], z3.And(0 <= i, i < n, z3.Select(L.nan.a, i)))
+            ex_.assume(z3.Implies(anynan, z3.And(z3.Select(L.nan.a, r), z3.ForAll([i], z3.Implies(z3.And(0 <= i, i < r), z3.Not(z3.Select(L.nan.a, i)))))))
+            ex_.assume(z3.Implies(z3.Not(anynan), z3.ForAll([i], z3.Implies(z3.And(0 <= i, i < n), z3.Select(x.a, r) <= z3.Select(x.a, i)))))
+        else:
+            ex_.assume(z3.ForAll([i], z3.Implies(z3.And(0 <= i, i < n), z3.Select(x.a, r) <= z3.Select(x.a, i))))
+        return r
+
     def mean(ex_, x, axis=0):
         ex_.assumptions_used.add("jnp.mean / jnp.std over axis 0 are functions of the array (uninterpreted)")
         return MEAN(x.a, x.n)
@@ -56,8 +71,8 @@ def cem_models(ex, L):
 
     jnp = ex.lib.ns["jax.numpy"]
     orig_where = jnp.entries["where"]
-    saved = {k: jnp.entries.get(k) for k in ("where", "argsort", "mean", "std")}
-    jnp.entries.update(where=where, argsort=argsort, mean=mean, std=std)
+    saved = {k: jnp.entries.get(k) for k in ("where", "argsort", "mean", "std", "argmin")}
+    jnp.entries.update(where=where, argsort=argsort, mean=mean, std=std, argmin=argmin)
     ex.opts["isnan"] = isnan
     return saved
 
